@@ -184,6 +184,9 @@ class Effects:
                 return [((("closure-reader",),), True)]
             return [((), True)]
         if k == "ret":
+            if not H.is_err_exit(n):
+                # an early `return Ok(..)` would leave the region without going through the rest of the path
+                raise Unrecognised("early return that is not an error exit", n.get("sp"))
             ps = self.seq([n["e"]]) if "e" in n else [((), True)]
             return [(t, False) for t, _l in ps]
         if k in ("break", "continue"):
